@@ -37,21 +37,25 @@ theorem blen_lt_of_prefix_ne {n m : Str} (h : n <+: m) (hne : n ≠ m) : blen n 
 
 /-! ### `str::replace` -/
 
+theorem replaceAux_skip (p : Char) (ps w : Str) (a rest : Str) :
+    replaceAux p ps w a.length (a ++ rest) = replaceAux p ps w 0 rest := by
+  induction a with
+  | nil => simp
+  | cons c cs ih => simpa [replaceAux] using ih
+
 theorem replaceAll1_nil (p : Char) (ps w : Str) : replaceAll1 p ps w [] = [] := by
-  simp [replaceAll1]
+  simp [replaceAll1, replaceAux]
 
 theorem replaceAll1_hit (p : Char) (ps w rest : Str) :
     replaceAll1 p ps w (p :: (ps ++ rest)) = w ++ replaceAll1 p ps w rest := by
-  rw [replaceAll1]
   have : pre ps (ps ++ rest) = true := pre_iff.mpr (List.prefix_append _ _)
-  simp [this]
+  simp [replaceAll1, replaceAux, this, replaceAux_skip]
 
 theorem replaceAll1_miss (p : Char) (ps w : Str) (c : Char) (cs : Str)
     (h : ¬ (c = p ∧ ps <+: cs)) :
     replaceAll1 p ps w (c :: cs) = c :: replaceAll1 p ps w cs := by
-  rw [replaceAll1]
   have : ¬ (c = p ∧ pre ps cs = true) := by rw [pre_iff]; exact h
-  simp [this]
+  simp [replaceAll1, replaceAux, this]
 
 /-- Text without the first pattern char is copied. -/
 theorem replaceAll1_skip (p : Char) (ps w : Str) (s rest : Str) (h : p ∉ s) :
@@ -67,7 +71,7 @@ theorem replaceAll1_skip (p : Char) (ps w : Str) (s rest : Str) (h : p ∉ s) :
 theorem replaceAll1_of_not_contains (p : Char) (ps w : Str) (s : Str)
     (h : containsSub1 p ps s = false) : replaceAll1 p ps w s = s := by
   induction s with
-  | nil => simp [replaceAll1]
+  | nil => simp [replaceAll1_nil]
   | cons c cs ih =>
     simp only [containsSub1, Bool.or_eq_false_iff, Bool.and_eq_false_iff, decide_eq_false_iff_not] at h
     have hm : ¬ (c = p ∧ ps <+: cs) := by
@@ -168,19 +172,29 @@ theorem longest_max {ns : List Str} {s n : Str} (h : longest ns s = some n) :
           exact hc (pre_iff.mpr hpm)
         · exact hb m hm' hpm
 
-theorem parse_nil (ns : List Str) : parse ns [] = [] := by simp [parse]
+theorem parseAux_skip (ns : List Str) (k : Nat) (cs : Str) :
+    parseAux ns k cs = parseAux ns 0 (cs.drop k) := by
+  induction cs generalizing k with
+  | nil => cases k <;> simp [parseAux]
+  | cons c cs ih =>
+    cases k with
+    | zero => simp
+    | succ k => simpa [parseAux] using ih k
+
+theorem parse_nil (ns : List Str) : parse ns [] = [] := by simp [parse, parseAux]
 
 theorem parse_lit (ns : List Str) (c : Char) (cs : Str) (h : c ≠ '@') :
     parse ns (c :: cs) = .lit c :: parse ns cs := by
-  rw [parse]; simp [h]
+  simp [parse, parseAux, h]
 
 theorem parse_ref (ns : List Str) (cs n : Str) (h : longest ns cs = some n) :
     parse ns ('@' :: cs) = .ref n :: parse ns (cs.drop n.length) := by
-  rw [parse]; simp [h]
+  simp only [parse, parseAux, h, if_true]
+  rw [parseAux_skip]
 
 theorem parse_stray (ns : List Str) (cs : Str) (h : longest ns cs = none) :
     parse ns ('@' :: cs) = .stray :: parse ns cs := by
-  rw [parse]; simp [h]
+  simp [parse, parseAux, h]
 
 /-- Induction principle following the parser. -/
 theorem parse_induction (ns : List Str) (P : Str → Prop)
